@@ -102,13 +102,12 @@ def impl(case):
                 return f.getvalue()
             style = sum(case['writes']) % 3
             if style == 1 and ws:
-                # the usual copy loop: ONE buffer is refilled and a view of it is handed to write() each time
-                buf = bytearray(max(len(w) for w in ws) or 1)
-                view = memoryview(buf)
+                # a caller that reuses its buffers: each write gets a bytearray which the caller overwrites as soon as the
+                # call returns (whatever the blocker still needs of it, it must have taken by then)
                 for w in ws:
-                    buf[:len(w)] = w
-                    b.write(view[:len(w)])
-                    buf[:len(w)] = b'\xee' * len(w)      # the caller reuses its buffer at once
+                    ba = bytearray(w)
+                    b.write(ba)
+                    ba[:] = b'\xee' * len(ba)
             elif style == 2:
                 for w in ws:
                     b.write(bytearray(w))
